@@ -508,6 +508,15 @@ def utf8Decode : Nat → List UInt8 → Option (List Char)
         | _ => none
       else none
 
+/-- UTF-8 encoding of one character as Go writes a string (`[]byte(s)`, `utf8.AppendRune`) -/
+def utf8Enc (c : Char) : List UInt8 :=
+  let n := c.toNat
+  if n < 0x80 then [n.toUInt8]
+  else if n < 0x800 then [(0xC0 + n / 64).toUInt8, (0x80 + n % 64).toUInt8]
+  else if n < 0x10000 then [(0xE0 + n / 4096).toUInt8, (0x80 + n / 64 % 64).toUInt8, (0x80 + n % 64).toUInt8]
+  else [(0xF0 + n / 262144).toUInt8, (0x80 + n / 4096 % 64).toUInt8, (0x80 + n / 64 % 64).toUInt8,
+        (0x80 + n % 64).toUInt8]
+
 def lowerAscii (s : List Char) : List Char := s.map Time.lower
 
 /-- the end of the XML declaration's content: what precedes the first "?>", and its length -/
